@@ -24,6 +24,7 @@ func (ex *Exec) jsonCall(st *State, in ssa.Instruction, name string, c *ssa.Call
 		return Sc{r}, true
 	case "encoding/json.Marshal", "encoding/json.MarshalIndent":
 		ex.note("trusted model: json.Marshal returns fresh bytes and does not modify its argument")
+		ex.recordEncoded(st, c.Args[0])
 		before := st.allocTop
 		ex.bumpAlloc(st)
 		res := ex.freshResult(st, sig, "json_marshal")
@@ -35,6 +36,7 @@ func (ex *Exec) jsonCall(st *State, in ssa.Instruction, name string, c *ssa.Call
 		return res, true
 	case "encoding/json.(*Encoder).Encode":
 		ex.note("trusted model: json.Encoder.Encode writes to its stream only")
+		ex.recordEncoded(st, c.Args[len(c.Args)-1])
 		return ex.freshResult(st, sig, "json_encode"), true
 	case "encoding/json.Unmarshal", "encoding/json.(*Decoder).Decode":
 		ex.note("trusted model: json decoding leaves an arbitrary value of the target's type (fresh slices/maps/pointers)")
@@ -89,4 +91,21 @@ func (ex *Exec) assumeFreshParts(st *State, v Value, t types.Type, before Term) 
 			ex.assumeFreshParts(st, e, u.Elem(), before)
 		}
 	}
+}
+
+// recordEncoded makes the value handed to the encoder visible to specs: the ghosts jsonEncTyp / jsonEncVal hold the
+// (type id, value) pair of the LAST value passed to json.Marshal / Encoder.Encode on this path, jsonEncCount how many
+// were passed. `as(mkiface(jsonEncTyp, jsonEncVal), "dtoType")` is that value (a struct passed by value is a snapshot).
+func (ex *Exec) recordEncoded(st *State, arg ssa.Value) {
+	iv, ok := st.val(arg).(If)
+	if !ok {
+		return
+	}
+	st.ghost["jsonEncTyp"] = Sc{iv.Typ}
+	st.ghost["jsonEncVal"] = Sc{iv.Val}
+	cnt := intLit(0)
+	if c, ok := st.ghost["jsonEncCount"].(Sc); ok {
+		cnt = c.T
+	}
+	st.ghost["jsonEncCount"] = Sc{tAdd(cnt, intLit(1))}
 }
